@@ -222,13 +222,19 @@ func Attestation(quote []byte) (*tpmpb.Attestation, error) {
 
 	// Attempt to decode as a raw SEV-SNP attestation.
 	// Get the raw quote and try to extract from the certificates.
-	if at, err := abi.ReportCertsToProto(quote); err == nil {
-		tpmat.TeeAttestation = &tpmpb.Attestation_SevSnpAttestation{SevSnpAttestation: at}
-		return tpmat, nil
+	var rawCerts []byte
+	if len(quote) >= abi.ReportSize {
+		rawCerts = quote[abi.ReportSize:]
+	}
+	if extractsev.CheckCertTable(rawCerts) == nil {
+		if at, err := abi.ReportCertsToProto(quote); err == nil {
+			tpmat.TeeAttestation = &tpmpb.Attestation_SevSnpAttestation{SevSnpAttestation: at}
+			return tpmat, nil
+		}
 	}
 	// Attempt to decode as just the SEV-SNP certificate table.
 	certs := new(abi.CertTable)
-	if err := certs.Unmarshal(quote); err == nil {
+	if extractsev.CheckCertTable(quote) == nil && certs.Unmarshal(quote) == nil {
 		sev.Report = &spb.Report{Measurement: []byte{0}}
 		sev.CertificateChain = certs.Proto()
 		tpmat.TeeAttestation = &tpmpb.Attestation_SevSnpAttestation{SevSnpAttestation: sev}
